@@ -5,6 +5,7 @@ import Genshi.Model.OutputPipeline
 import Genshi.Lemmas.ReaderDocView   -- specification-side definitions of the document theorems (Mathlib-free)
 import Genshi.Model.OutputWsForest
 import Genshi.Lemmas.OutputWsSpec     -- `normForest`, `wsDom`: specification side of the strip theorems (Mathlib-free)
+import Genshi.Lemmas.ReaderTreeMixed  -- `forestMixedOk`, `forestPiecesXM`: mixed-namespace tree theorems (Mathlib-free)
 namespace Driver.C08
 open Genshi Genshi.Reader Genshi.Output Genshi.Sexp
 
@@ -105,7 +106,12 @@ def expectHtml (strip : Bool) (dopt : Option DocTypeT) (s : Stream) : Sexp :=
     let body := if strip then normForest .html body0 else body0
     if u == xmlNs then out "xml-namespace"
     else if !okList body0 then out "not-a-forest"
-    else if !forestUniformNs u body0 then out "mixed-namespaces"
+    else if !forestUniformNs u body0 then
+      -- forests that mix namespaces: `html_roundtrip_tree_mixed_partial` (no prolog, no doctype option, strip off)
+      (if strip || dopt.isSome || ns.length != body0.length then out "mixed-namespaces"
+       else if !forestMixedOk body0 then out "mixed-namespaces-xml"
+       else if !htmlForestOk body0 then out "mixed-body-hypotheses"
+       else .list [.atom "ok", .list ((dropDoctypeNl (htmlView (assemble (forestPieces body0)))).flatMap htok)])
     else if strip && !wsDom .html body0 then out "whitespace-domain"
     else if !htmlForestOkP body then out "body-hypotheses"
     else if !dtOkOf (winDt dopt dt) || !dtNoGtOf (winDt dopt dt) then out "doctype-fields"
@@ -122,7 +128,15 @@ def expectXhtml (strip : Bool) (dropd : Bool) (dopt : Option DocTypeT) (s : Stre
     else if !docNcr u dopt decl dt body then out "carriage-return"
     else if !attrValOkB u then out "namespace-uri"
     else if !okList body0 then out "not-a-forest"
-    else if !forestUniformNs u body0 then out "mixed-namespaces"
+    else if !forestUniformNs u body0 then
+      -- forests that mix namespaces: `xhtml_roundtrip_tree_mixed_tokens_partial` gives the tokens; the
+      -- specification-side `xmlView` resolves them (no theorem yet says what it resolves them to)
+      (if strip || dopt.isSome || ns.length != body0.length || !dropd then out "mixed-namespaces"
+       else if !forestMixedOk body0 then out "mixed-namespaces-xml"
+       else if !xhtmlForestOk body0 || !forestNsValsOk body0 then out "mixed-body-hypotheses"
+       else match xmlView [] (assemble (forestPiecesXM [] body0)) with
+         | some ts => .list [.atom "ok", .list (ts.map xtok)]
+         | none => out "mixed-not-resolvable")
     else if strip && !wsDom .xhtml body0 then out "whitespace-domain"
     else if !xKidsOkP false body then out "body-hypotheses"
     else if !xmlForestOkP true body then out "not-resolvable"
